@@ -453,7 +453,7 @@ def main():
     atk_jobs = {}
     live_flags = FLAGS_CHEAP if QUICK else FLAGS_ALL
     for fl in live_flags:
-        heavy = fl in ("AppendTruncates", "HeartbeatCommit", "CommitAnyTerm")
+        heavy = fl in ("AppendTruncates", "HeartbeatCommit", "CommitAnyTerm", "ConfNoPending", "AddedVoterCaughtUp")
         atk_jobs[fl] = pool.submit(tlc_attack, fl, 4 if heavy else 1, 1000 if heavy else 300)
 
     # ---- 3. random runs on the real code
